@@ -238,6 +238,10 @@ func Replay(c *core.Ctx, lines []string) {
 			if c.Gotree != "" {
 				emitClif(c, f[1], parseDumps(f[5]), ft, mode)
 			}
+		case f[0] == "C09.items" && len(f) >= 5:
+			replayItems(c, f)
+		case f[0] == "C09.hist" && len(f) >= 6:
+			replayHist(c, f)
 		case f[0] == "C09.inv" && len(f) >= 8:
 			cutoff, err := core.ParseRat(f[2])
 			if err != nil {
@@ -603,6 +607,10 @@ func addSingles(g *core.G, o *core.TreeOpts, n *core.N) {
 // funny: odd tip names allowed (library cases)
 var funny bool
 
+// rehashP: share of the collections with more than 96 distinct bipartitions (2% in the quick tier, 0.6% in the
+// thorough one, where they are the most expensive cases of the driver)
+var rehashP = 0.02
+
 // big: thorough tier only — a share of the collections has up to 18 taxa and up to 20 trees
 var big bool
 
@@ -618,6 +626,9 @@ func collection(g *core.G) ([]*core.N, core.TreeOpts) {
 	}
 	if funny && g.Chance(0.1) { // look-alike / odd tip names (library tier only: built through the API)
 		o.FunnyNames = true
+	}
+	if g.Chance(rehashP) { // more than 96 distinct bipartitions: the edge index (128 buckets, load factor 0.75) is rehashed
+		return rehashCollection(g, o), o
 	}
 	base, _ := g.Tree(o)
 	if g.Chance(0.15) { // look-alike taxon names (case-only differences, numeric aliases, prefixes)
@@ -656,6 +667,28 @@ func collection(g *core.G) ([]*core.N, core.TreeOpts) {
 		}
 	}
 	return ns, o
+}
+
+// rehashCollection: 13..15 taxa, 14..16 trees, half of them variants of one base tree (so that some
+// bipartitions are frequent), half of them independent random trees on the same taxa (so that the
+// index holds more than 0.75*128 = 96 bipartitions and hashmap.HashMap rehashes while it is filled).
+func rehashCollection(g *core.G, o core.TreeOpts) []*core.N {
+	n := 13 + g.Intn(3)
+	o.MinTips, o.MaxTips = n, n
+	o.Multif = 0.1
+	o.FunnyNames = false
+	base, _ := g.Tree(o)
+	k := 14 + g.Intn(3)
+	ns := make([]*core.N, k)
+	for i := range ns {
+		if g.Chance(0.5) {
+			ns[i] = variant(g, &o, base, 0.1, 0.1, g.Intn(3))
+		} else {
+			t, _ := g.Tree(o)
+			ns[i] = variant(g, &o, t, 0, 0, g.Intn(3))
+		}
+	}
+	return ns
 }
 
 // textual forms of a threshold for -f; every one denotes exactly the float64 v (v is dyadic)
@@ -753,9 +786,20 @@ func Run(c *core.Ctx) {
 		return
 	}
 	big = !c.Quick()
+	if big {
+		rehashP = 0.006
+	}
 	n := c.Scale(400, 10000)
 	for i := 0; i < n; i++ {
 		genCase(c, false)
+	}
+	// the channel as Consensus reads it: error records among the trees (round 7)
+	for i := 0; i < c.Scale(80, 500); i++ {
+		genItems(c, false)
+	}
+	// input trees with a history: indexed, then modified through the API (stale indexes) (round 7)
+	for i := 0; i < c.Scale(120, 800); i++ {
+		genHist(c)
 	}
 	// the empty collection (outside the property's domain; an error since 29626f3)
 	emitCons(c, "lib-empty", false, nil, 0.5)
@@ -766,6 +810,9 @@ func Run(c *core.Ctx) {
 		}
 		for i := 0; i < c.Scale(30, 500); i++ {
 			genClif(c)
+		}
+		for i := 0; i < c.Scale(12, 100); i++ {
+			genItems(c, true)
 		}
 	}
 }
